@@ -20,6 +20,9 @@ Local Open Scope nat_scope.
 
 Inductive fl_scope := ScPhase | ScRequest | ScAll.          (* allow:phase | allow:request | allow *)
 
+(* tx.RuleEngine: per-transaction state, initialised from SecRuleEngine, changed by ctl:ruleEngine *)
+Inductive fl_mode := MOn | MDet | MOff.
+
 (* flow and disruptive actions (plugintypes.ActionTypeFlow / ActionTypeDisruptive) *)
 Inductive fl_act :=
   | ASkip (n : nat)            (* skip:N       -> tx.Skip = N *)
@@ -31,6 +34,7 @@ Inductive fl_act :=
 Record fl_link := mkLink {
   l_key  : option nat;         (* None: no operator (SecAction / SecMarker), always matches *)
   l_rm   : list nat;           (* ctl:ruleRemoveById=<id> actions of this link (non-disruptive: run when the link matches) *)
+  l_eng  : option fl_mode;     (* ctl:ruleEngine=<mode> of this link (non-disruptive as well) *)
   l_acts : list fl_act         (* flow actions written on this link; the engine never runs those of non-starters *)
 }.
 
@@ -42,7 +46,7 @@ Record fl_rule := mkRule {
   r_acts  : list fl_act        (* the starter's flow/disruptive actions in r.actions order *)
 }.
 
-Definition fl_marker (m : nat) : fl_rule := mkRule 0 0 (Some m) [mkLink None [] []] [].
+Definition fl_marker (m : nat) : fl_rule := mkRule 0 0 (Some m) [mkLink None [] None []] [].
 
 (* ---------------------------------------------------------------------------------- *)
 (* transaction state                                                                   *)
@@ -58,18 +62,20 @@ Record fl_st := mkSt {
   s_intr  : option (nat * nat);      (* tx.interruption: (phase, rule id) *)
   s_dintr : option (nat * nat);      (* tx.detectionOnlyInterruption *)
   s_rm    : list nat;                (* tx.ruleRemoveByID *)
+  s_eng   : fl_mode;                 (* tx.RuleEngine *)
   s_ev    : list fl_event            (* trace, oldest first *)
 }.
 
-Definition fl_init : fl_st := mkSt 0 None None None None [] [].
+Definition fl_init (eng : fl_mode) : fl_st := mkSt 0 None None None None [] eng [].
 
-Definition set_skip n s := mkSt n (s_after s) (s_allow s) (s_intr s) (s_dintr s) (s_rm s) (s_ev s).
-Definition set_after m s := mkSt (s_skip s) m (s_allow s) (s_intr s) (s_dintr s) (s_rm s) (s_ev s).
-Definition set_allow a s := mkSt (s_skip s) (s_after s) a (s_intr s) (s_dintr s) (s_rm s) (s_ev s).
-Definition set_intr i s := mkSt (s_skip s) (s_after s) (s_allow s) i (s_dintr s) (s_rm s) (s_ev s).
-Definition set_dintr i s := mkSt (s_skip s) (s_after s) (s_allow s) (s_intr s) i (s_rm s) (s_ev s).
-Definition add_rm l s := mkSt (s_skip s) (s_after s) (s_allow s) (s_intr s) (s_dintr s) (s_rm s ++ l) (s_ev s).
-Definition add_ev e s := mkSt (s_skip s) (s_after s) (s_allow s) (s_intr s) (s_dintr s) (s_rm s) (s_ev s ++ [e]).
+Definition set_skip n s := mkSt n (s_after s) (s_allow s) (s_intr s) (s_dintr s) (s_rm s) (s_eng s) (s_ev s).
+Definition set_after m s := mkSt (s_skip s) m (s_allow s) (s_intr s) (s_dintr s) (s_rm s) (s_eng s) (s_ev s).
+Definition set_allow a s := mkSt (s_skip s) (s_after s) a (s_intr s) (s_dintr s) (s_rm s) (s_eng s) (s_ev s).
+Definition set_intr i s := mkSt (s_skip s) (s_after s) (s_allow s) i (s_dintr s) (s_rm s) (s_eng s) (s_ev s).
+Definition set_dintr i s := mkSt (s_skip s) (s_after s) (s_allow s) (s_intr s) i (s_rm s) (s_eng s) (s_ev s).
+Definition add_rm l s := mkSt (s_skip s) (s_after s) (s_allow s) (s_intr s) (s_dintr s) (s_rm s ++ l) (s_eng s) (s_ev s).
+Definition set_eng e s := mkSt (s_skip s) (s_after s) (s_allow s) (s_intr s) (s_dintr s) (s_rm s) e (s_ev s).
+Definition add_ev e s := mkSt (s_skip s) (s_after s) (s_allow s) (s_intr s) (s_dintr s) (s_rm s) (s_eng s) (s_ev s ++ [e]).
 
 Definition is_some {A} (o : option A) : bool := match o with Some _ => true | None => false end.
 Definition opt_nat_eqb (a b : option nat) : bool :=
@@ -83,32 +89,40 @@ Definition opt_nat_eqb (a b : option nat) : bool :=
 (* code side                                                                           *)
 (* ---------------------------------------------------------------------------------- *)
 
-(* engine: true = SecRuleEngine On, false = DetectionOnly *)
-Definition fl_apply_act (eng : bool) (p id : nat) (s : fl_st) (a : fl_act) : fl_st :=
+(* Transaction.Allow and Transaction.Interrupt read the transaction's CURRENT mode *)
+Definition fl_apply_act (p id : nat) (s : fl_st) (a : fl_act) : fl_st :=
   match a with
   | ASkip n => set_skip n s
   | ASkipAfter m => set_after (Some m) s
-  | AAllow sc => if eng then set_allow (Some sc) s else s           (* Transaction.Allow *)
+  | AAllow sc => match s_eng s with MOn => set_allow (Some sc) s | _ => s end   (* Transaction.Allow *)
   | ADeny =>                                                         (* Transaction.Interrupt: first one wins *)
-      if eng then (if is_some (s_intr s) then s else set_intr (Some (p, id)) s)
-      else (if is_some (s_dintr s) then s else set_dintr (Some (p, id)) s)
+      match s_eng s with
+      | MOn => if is_some (s_intr s) then s else set_intr (Some (p, id)) s
+      | MDet => if is_some (s_dintr s) then s else set_dintr (Some (p, id)) s
+      | MOff => s
+      end
   end.
 
 Definition fl_link_matches (req : list bool) (l : fl_link) : bool :=
   match l_key l with None => true | Some k => nth k req false end.
+
+(* the ctl actions of a link that matched *)
+Definition fl_link_ctl (l : fl_link) (s : fl_st) : fl_st :=
+  let s1 := add_rm (l_rm l) s in
+  match l_eng l with Some e => set_eng e s1 | None => s1 end.
 
 (* the chain walk of doEvaluate: a link that matches runs its non-disruptive actions, the first link
    that does not match ends the walk *)
 Fixpoint fl_walk (req : list bool) (ls : list fl_link) (s : fl_st) : bool * fl_st :=
   match ls with
   | [] => (true, s)
-  | l :: ls' => if fl_link_matches req l then fl_walk req ls' (add_rm (l_rm l) s) else (false, s)
+  | l :: ls' => if fl_link_matches req l then fl_walk req ls' (fl_link_ctl l s) else (false, s)
   end.
 
 (* Rule.Evaluate for the rule visited by the phase loop (always a starter or a marker) *)
-Definition fl_evaluate (eng : bool) (req : list bool) (p : nat) (r : fl_rule) (s : fl_st) : fl_st :=
+Definition fl_evaluate (req : list bool) (p : nat) (r : fl_rule) (s : fl_st) : fl_st :=
   let '(m, s1) := fl_walk req (r_links r) s in
-  let s2 := if m then fold_left (fl_apply_act eng p (r_id r)) (r_acts r) s1 else s1 in
+  let s2 := if m then fold_left (fl_apply_act p (r_id r)) (r_acts r) s1 else s1 in
   add_ev (Ev p (r_id r) (m && negb (r_id r =? 0))) s2.
 
 Definition fl_removed (s : fl_st) (r : fl_rule) : bool := existsb (Nat.eqb (r_id r)) (s_rm s).
@@ -125,25 +139,25 @@ Definition fl_allow_break (p : nat) (s : fl_st) : option fl_st :=
   end.
 
 (* RulesLoop of RuleGroup.Eval, over ALL rules of the WAF *)
-Fixpoint fl_eval_loop (eng : bool) (req : list bool) (p : nat) (rs : list fl_rule) (s : fl_st) : fl_st :=
+Fixpoint fl_eval_loop (req : list bool) (p : nat) (rs : list fl_rule) (s : fl_st) : fl_st :=
   match rs with
   | [] => s
   | r :: rest =>
     if fl_halted p s then s                                           (* break *)
-    else if negb (fl_in_phase p r) then fl_eval_loop eng req p rest s (* continue: other phase *)
-    else if fl_removed s r then fl_eval_loop eng req p rest s         (* continue: ctl:ruleRemoveById *)
+    else if negb (fl_in_phase p r) then fl_eval_loop req p rest s (* continue: other phase *)
+    else if fl_removed s r then fl_eval_loop req p rest s         (* continue: ctl:ruleRemoveById *)
     else match s_after s with
     | Some m =>                                                       (* pending skipAfter *)
         if opt_nat_eqb (r_mark r) (Some m)
-        then fl_eval_loop eng req p rest (set_after None s)
-        else fl_eval_loop eng req p rest s
+        then fl_eval_loop req p rest (set_after None s)
+        else fl_eval_loop req p rest s
     | None =>
       match s_skip s with
-      | S k => fl_eval_loop eng req p rest (set_skip k s)             (* tx.Skip-- ; continue *)
+      | S k => fl_eval_loop req p rest (set_skip k s)             (* tx.Skip-- ; continue *)
       | O =>
         match fl_allow_break p s with
         | Some s' => s'                                               (* break *)
-        | None => fl_eval_loop eng req p rest (fl_evaluate eng req p r s)
+        | None => fl_eval_loop req p rest (fl_evaluate req p r s)
         end
       end
     end
@@ -154,15 +168,22 @@ Definition fl_end_phase (s : fl_st) : fl_st :=
   let s1 := match s_allow s with Some ScPhase => set_allow None s | _ => s end in
   set_after None (set_skip 0 s1).
 
-Definition fl_eval_phase eng req p rs s : fl_st := fl_end_phase (fl_eval_loop eng req p rs s).
+Definition fl_eval_phase req p rs s : fl_st := fl_end_phase (fl_eval_loop req p rs s).
 
-(* ProcessRequestHeaders/RequestBody/ResponseHeaders/ResponseBody return early when the transaction is
-   interrupted; ProcessLogging always evaluates phase 5 *)
-Definition fl_guarded_phase eng req rs (s : fl_st) (p : nat) : fl_st :=
-  if is_some (s_intr s) then s else fl_eval_phase eng req p rs s.
+Definition fl_is_off (e : fl_mode) : bool := match e with MOff => true | _ => false end.
 
-Definition fl_run (eng : bool) (req : list bool) (rs : list fl_rule) : fl_st :=
-  fl_eval_phase eng req 5 rs (fold_left (fl_guarded_phase eng req rs) [1; 2; 3; 4] fl_init).
+(* ProcessRequestHeaders/RequestBody/ResponseHeaders/ResponseBody return early when the rule engine of
+   the transaction is Off or the transaction is interrupted; ProcessLogging evaluates phase 5 unless
+   the rule engine is Off *)
+Definition fl_guarded_phase req rs (s : fl_st) (p : nat) : fl_st :=
+  if fl_is_off (s_eng s) then s else if is_some (s_intr s) then s else fl_eval_phase req p rs s.
+
+Definition fl_logging req rs (s : fl_st) : fl_st :=
+  if fl_is_off (s_eng s) then s else fl_eval_phase req 5 rs s.
+
+(* eng: the configured SecRuleEngine *)
+Definition fl_run (eng : fl_mode) (req : list bool) (rs : list fl_rule) : fl_st :=
+  fl_logging req rs (fold_left (fl_guarded_phase req rs) [1; 2; 3; 4] (fl_init eng)).
 
 (* ---------------------------------------------------------------------------------- *)
 (* observables                                                                         *)
@@ -192,9 +213,10 @@ Record fl_g := mkG {
   g_intr  : option (nat * nat);
   g_dintr : option (nat * nat);
   g_rm    : list nat;
+  g_eng   : fl_mode;                 (* the transaction's current mode *)
   g_ev    : list fl_event
 }.
-Definition fl_ginit : fl_g := mkG None None None [] [].
+Definition fl_ginit (eng : fl_mode) : fl_g := mkG None None None [] eng [].
 
 Definition fl_live (rm : list nat) (r : fl_rule) : bool := negb (existsb (Nat.eqb (r_id r)) rm).
 
@@ -232,6 +254,15 @@ Fixpoint fl_prefix_rm (req : list bool) (ls : list fl_link) : list nat :=
   | l :: t => if fl_link_matches req l then l_rm l ++ fl_prefix_rm req t else []
   end.
 
+(* the mode after the ctl:ruleEngine actions of the links that were reached and matched *)
+Fixpoint fl_prefix_eng (req : list bool) (ls : list fl_link) (e : fl_mode) : fl_mode :=
+  match ls with
+  | [] => e
+  | l :: t => if fl_link_matches req l
+              then fl_prefix_eng req t (match l_eng l with Some e' => e' | None => e end)
+              else e
+  end.
+
 (* does an allow of this scope, in force, end phase p *)
 Definition fl_blocks (a : option fl_scope) (p : nat) : bool :=
   match a with
@@ -248,18 +279,30 @@ Fixpoint fl_after_marker (m : nat) (l : list fl_rule) : list fl_rule :=
   | r :: t => if opt_nat_eqb (r_mark r) (Some m) then t else fl_after_marker m t
   end.
 
-(* evaluating entry r of phase p: effect on what survives *)
-Definition fl_fire (eng : bool) (req : list bool) (p : nat) (r : fl_rule) (g : fl_g) : fl_g :=
+(* evaluating entry r of phase p: effect on what survives. allow is enforced only when the
+   transaction's mode (after this rule's own ctl actions) is On; deny interrupts in On, is only
+   recorded in DetectionOnly *)
+Definition fl_fire (req : list bool) (p : nat) (r : fl_rule) (g : fl_g) : fl_g :=
   let m := fl_all_match req r in
   let acts := if m then r_acts r else [] in
-  let allow' := if eng then match fl_last_allow acts with Some sc => Some sc | None => g_allow g end else g_allow g in
-  let intr' := if eng && fl_has_deny acts && negb (is_some (g_intr g)) then Some (p, r_id r) else g_intr g in
-  let dintr' := if negb eng && fl_has_deny acts && negb (is_some (g_dintr g)) then Some (p, r_id r) else g_dintr g in
-  mkG allow' intr' dintr' (g_rm g ++ fl_prefix_rm req (r_links r))
+  let eng := fl_prefix_eng req (r_links r) (g_eng g) in
+  let allow' := match eng with
+                | MOn => match fl_last_allow acts with Some sc => Some sc | None => g_allow g end
+                | _ => g_allow g
+                end in
+  let intr' := match eng with
+               | MOn => if fl_has_deny acts && negb (is_some (g_intr g)) then Some (p, r_id r) else g_intr g
+               | _ => g_intr g
+               end in
+  let dintr' := match eng with
+                | MDet => if fl_has_deny acts && negb (is_some (g_dintr g)) then Some (p, r_id r) else g_dintr g
+                | _ => g_dintr g
+                end in
+  mkG allow' intr' dintr' (g_rm g ++ fl_prefix_rm req (r_links r)) eng
       (g_ev g ++ [Ev p (r_id r) (m && negb (r_id r =? 0))]).
 
 (* ... and on the rest of the phase's agenda *)
-Definition fl_resume (eng : bool) (req : list bool) (p : nat) (r : fl_rule) (g' : fl_g) (rest : list fl_rule) : list fl_rule :=
+Definition fl_resume (req : list bool) (p : nat) (r : fl_rule) (g' : fl_g) (rest : list fl_rule) : list fl_rule :=
   let acts := if fl_all_match req r then r_acts r else [] in
   let rest0 := filter (fl_live (g_rm g')) rest in
   let rest1 := match fl_last_after acts with Some m => fl_after_marker m rest0 | None => rest0 end in
@@ -267,7 +310,7 @@ Definition fl_resume (eng : bool) (req : list bool) (p : nat) (r : fl_rule) (g' 
   if fl_blocks (g_allow g') p then [] else rest2.
 
 (* the agenda of phase p is consumed from the left; an interruption ends every phase but logging *)
-Fixpoint fl_spec_go (fuel : nat) (eng : bool) (req : list bool) (p : nat) (agenda : list fl_rule) (g : fl_g) : fl_g :=
+Fixpoint fl_spec_go (fuel : nat) (req : list bool) (p : nat) (agenda : list fl_rule) (g : fl_g) : fl_g :=
   match fuel with
   | O => g
   | S f =>
@@ -275,8 +318,8 @@ Fixpoint fl_spec_go (fuel : nat) (eng : bool) (req : list bool) (p : nat) (agend
     | [] => g
     | r :: rest =>
       if is_some (g_intr g) && negb (p =? 5) then g
-      else let g' := fl_fire eng req p r g in
-           fl_spec_go f eng req p (fl_resume eng req p r g' rest) g'
+      else let g' := fl_fire req p r g in
+           fl_spec_go f req p (fl_resume req p r g' rest) g'
     end
   end.
 
@@ -285,22 +328,24 @@ Definition fl_agenda (p : nat) (rm : list nat) (rs : list fl_rule) : list fl_rul
 
 (* one phase: nothing is evaluated while an allow covering this phase is in force; allow:phase expires
    with its phase, allow:request with the request phases *)
-Definition fl_spec_phase (eng : bool) (req : list bool) (rs : list fl_rule) (g : fl_g) (p : nat) : fl_g :=
+Definition fl_spec_phase (req : list bool) (rs : list fl_rule) (g : fl_g) (p : nat) : fl_g :=
   let g1 :=
     if fl_blocks (g_allow g) p then g
-    else let ag := fl_agenda p (g_rm g) rs in fl_spec_go (length ag) eng req p ag g in
+    else let ag := fl_agenda p (g_rm g) rs in fl_spec_go (length ag) req p ag g in
   let a' := match g_allow g1 with
             | Some ScPhase => None
             | Some ScRequest => if 2 <=? p then None else Some ScRequest
             | a => a
             end in
-  mkG a' (g_intr g1) (g_dintr g1) (g_rm g1) (g_ev g1).
+  mkG a' (g_intr g1) (g_dintr g1) (g_rm g1) (g_eng g1) (g_ev g1).
 
-Definition fl_spec_guarded eng req rs (g : fl_g) (p : nat) : fl_g :=
-  if is_some (g_intr g) then g else fl_spec_phase eng req rs g p.
+(* nothing is evaluated any more once the transaction's engine is Off; an interruption ends phases 1-4 *)
+Definition fl_spec_guarded req rs (g : fl_g) (p : nat) : fl_g :=
+  if fl_is_off (g_eng g) then g else if is_some (g_intr g) then g else fl_spec_phase req rs g p.
 
-Definition fl_spec_run (eng : bool) (req : list bool) (rs : list fl_rule) : fl_g :=
-  fl_spec_phase eng req rs (fold_left (fl_spec_guarded eng req rs) [1; 2; 3; 4] fl_ginit) 5.
+Definition fl_spec_run (eng : fl_mode) (req : list bool) (rs : list fl_rule) : fl_g :=
+  let g4 := fold_left (fl_spec_guarded req rs) [1; 2; 3; 4] (fl_ginit eng) in
+  if fl_is_off (g_eng g4) then g4 else fl_spec_phase req rs g4 5.
 
 Definition fl_gobs (g : fl_g) : list fl_event * option (nat * nat) * option (nat * nat) :=
   (g_ev g, g_intr g, g_dintr g).
@@ -338,10 +383,15 @@ Definition fl_strip_allow (r : fl_rule) : fl_rule :=
   mkRule (r_id r) (r_phase r) (r_mark r) (r_links r) (filter fl_not_allow (r_acts r)).
 
 Definition fl_strip_link_acts (r : fl_rule) : fl_rule :=
-  mkRule (r_id r) (r_phase r) (r_mark r) (map (fun l => mkLink (l_key l) (l_rm l) []) (r_links r)) (r_acts r).
+  mkRule (r_id r) (r_phase r) (r_mark r) (map (fun l => mkLink (l_key l) (l_rm l) (l_eng l) []) (r_links r)) (r_acts r).
 
 (* a transaction that carries nothing but per-transaction removals *)
-Definition fl_fresh (rm : list nat) : fl_st := mkSt 0 None None None None rm [].
+Definition fl_fresh (rm : list nat) (eng : fl_mode) : fl_st := mkSt 0 None None None None rm eng [].
 
 (* state between two phases *)
 Definition fl_boundary (s : fl_st) : Prop := s_skip s = 0 /\ s_after s = None /\ s_allow s <> Some ScPhase.
+
+(* no ctl:ruleEngine=On anywhere in the rule set *)
+Definition fl_link_no_on (l : fl_link) : bool := match l_eng l with Some MOn => false | _ => true end.
+Definition fl_no_switch_on (rs : list fl_rule) : bool :=
+  forallb (fun r => forallb fl_link_no_on (r_links r)) rs.
